@@ -71,9 +71,13 @@ def fix_maps(x, key=None):
     return x
 
 
-def write_cfg(run, name, scope, steps, spec_lines):
+ALL_FORMS = "EphForms = {1, 2, 3, 4, 5, 6, 7}  StForms = {0, 1, 2}"
+ONE_FORM = "EphForms = {2}  StForms = {2}"      # closed-model runs: the forms only show in the history (hidden by the VIEW)
+
+
+def write_cfg(run, name, scope, steps, spec_lines, forms=ONE_FORM):
     with open(os.path.join(run.specdir, name), "w") as f:
-        f.write("CONSTANTS %s\nCONSTANTS MaxRounds = 3  MaxClaims = 3  MaxSteps = %d\nCONSTANTS %s\n%s\n" % (scope, steps, FLAGS, spec_lines))
+        f.write("CONSTANTS %s\nCONSTANTS MaxRounds = 3  MaxClaims = 3  MaxSteps = %d  %s\nCONSTANTS %s\n%s\n" % (scope, steps, forms, FLAGS, spec_lines))
     return name
 
 
@@ -149,7 +153,7 @@ def complete(b):
     delivered pass, so that Inv_C03_PoolCapacity / the in-flight guards see the consequences (the driver skips what does not
     apply)."""
     steps = list(b["steps"])
-    blank = {"c": "-", "deliver": False, "type": "-", "off": 0, "labels": False, "zero": False, "eph": False, "pod": "-"}
+    blank = dict(BLANK)
     pol = ("maxcpu", "maxmem", "first")[sum(len(s["a"]) for s in steps) % 3]
     steps.append(dict(blank, a="LaunchRest", type=pol))
     steps.append(dict(blank, a="Pass", deliver=True))
@@ -159,8 +163,8 @@ def complete(b):
 def generate(run, prop, rng):
     sc = SCOPE[(prop, run.tier)]
     dev = os.environ.get("VERIF_DEV")
-    write_cfg(run, "MultiPass_Enum_run.cfg", sc["enum"], sc["enum_steps"], "SPECIFICATION Spec\nINVARIANTS GenPrint")
-    write_cfg(run, "MultiPass_Sim_run.cfg", sc.get("sim_scope", FULL), sc["sim_steps"], "SPECIFICATION Spec\nINVARIANTS GenPrint")
+    write_cfg(run, "MultiPass_Enum_run.cfg", sc["enum"], sc["enum_steps"], "SPECIFICATION Spec\nINVARIANTS GenPrint", forms="EphForms = {2, 5}  StForms = {0, 2}")
+    write_cfg(run, "MultiPass_Sim_run.cfg", sc.get("sim_scope", FULL), sc["sim_steps"], "SPECIFICATION Spec\nINVARIANTS GenPrint", forms=ALL_FORMS)
     with cf.ThreadPoolExecutor(max_workers=2) as ex:
         fe = ex.submit(lambda: run.generate("MultiPass", "MultiPass_Enum_run.cfg", workers=2 if dev else 4, timeout=2400, heap="4g"))
         time.sleep(0.3)
@@ -195,7 +199,7 @@ DEDICATED = {"key": "dedicated", "value": "infra", "effect": "NoSchedule"}
 STARTUP = {"key": "startup.example/agent", "value": "", "effect": "NoSchedule"}
 TOL_DED = {"key": "dedicated", "op": "Equal", "value": "infra", "effect": "NoSchedule"}
 TOL_ALL = {"key": "", "op": "Exists", "value": "", "effect": ""}
-BLANK = {"c": "-", "deliver": False, "type": "-", "off": 0, "labels": False, "zero": False, "eph": False, "pod": "-"}
+BLANK = {"c": "-", "deliver": False, "type": "-", "off": 0, "labels": False, "zero": False, "eph": False, "ephv": 0, "stv": 0, "pod": "-"}
 
 
 def _pod(name, cpu, mem, created):
@@ -260,8 +264,12 @@ def explore(rng, name):
     stage = {}          # explorer's guess of each NodeClaim's stage (the driver skips what does not apply)
     for rnd in range(rng.choice([2, 3, 3, 4])):
         steps.append(dict(BLANK, a="Pass", deliver=True))
-        if rng.random() < 0.35:
+        r = rng.random()
+        if r < 0.3:
             steps.append(dict(BLANK, a="Pass", deliver=False))
+        elif r < 0.45:              # restart while the NodeClaims of the pass are stored but not launched
+            steps.append(dict(BLANK, a="Restart"))
+            steps.append(dict(BLANK, a="Pass", deliver=rng.random() < 0.8))
         for k in range(4):
             c = "#%d" % k
             st = stage.get(k, 0)
@@ -269,7 +277,9 @@ def explore(rng, name):
                 if st == 0:
                     steps.append(dict(BLANK, a="Launch", c=c, type="?", off=rng.randrange(8)))
                 elif st == 1:
-                    steps.append(dict(BLANK, a="Appear", c=c, labels=rng.random() < 0.5, zero=rng.random() < 0.5, eph=rng.random() < 0.5))
+                    ev = rng.choice([0, 0, 1, 2, 3, 4, 5, 6, 7])
+                    steps.append(dict(BLANK, a="Appear", c=c, labels=rng.random() < 0.5, zero=rng.random() < 0.5, eph=ev > 0, ephv=ev,
+                                      stv=rng.randrange(3)))
                 elif st == 2:
                     steps.append(dict(BLANK, a="Register", c=c))
                 elif st == 3:
@@ -280,8 +290,12 @@ def explore(rng, name):
                     steps.append(dict(BLANK, a=rng.choice(["Bind", "Daemon", "Bind"]), c=c))
                     st -= 1 if rng.random() < 0.5 else 0
                 st = min(st + 1, 5)
-                if rng.random() < 0.15:
+                r = rng.random()
+                if r < 0.15:
                     steps.append(dict(BLANK, a="Pass", deliver=True))
+                elif r < 0.22:      # Karpenter restarts at this point of the NodeClaim's life; a pass is the first thing the new process does
+                    steps.append(dict(BLANK, a="Restart"))
+                    steps.append(dict(BLANK, a="Pass", deliver=rng.random() < 0.8))
             stage[k] = st
         if arrived < len(later) and rng.random() < 0.6:
             steps.append(dict(BLANK, a="AddPod", pod=later[arrived]["name"]))
@@ -294,6 +308,45 @@ def explore(rng, name):
                 steps.append(dict(BLANK, a="Pass", deliver=False))
     scn = {"options": {"create": True}, "types": types, "pools": pools, "nodes": [], "ds": dss, "scs": [], "pvs": [], "pvcs": [], "pods": pods}
     return {"name": name, "scenario": scn, "later": later, "steps": steps}
+
+
+def systematic():
+    """Deterministic grids over ONE small scenario (two pods that share a NodeClaim, one daemonset, a startup taint), always replayed:
+    (a) a pass re-run while the in-flight node carries each known ephemeral taint / startup taint in each MatchTaint-equal form
+        (other value, timeAdded set) at the appeared and the registered stage;
+    (b) Karpenter restarts at every point of the NodeClaim's life (stored-unlaunched, launched, appeared, registered, initialized),
+        the new process is fully re-hydrated through the informers (or not at all) and a pass is the first thing it does."""
+    off = {"zone": "a", "ct": "od", "price": 100, "available": True, "rid": "", "rcap": 0, "cpuOv": 0, "memOv": 0}
+    scn = {"options": {"create": True},
+           "types": [{"name": "A", "cpu": 4000, "mem": 4096, "pods": 110, "labels": {}, "ovCpu": 0, "ovMem": 0, "offerings": [dict(off)]},
+                     {"name": "B", "cpu": 2000, "mem": 8192, "pods": 110, "labels": {}, "ovCpu": 0, "ovMem": 0, "offerings": [dict(off, price=90)]}],
+           "pools": [{"name": "p", "weight": 0, "reqs": [], "labels": {}, "taints": [], "startup": [dict(STARTUP)],
+                      "limits": {"cpu": 0, "mem": 0, "nodes": -1}, "types": []}],
+           "nodes": [], "ds": [{"name": "ds0", "ns": "kube-system", "cpu": 200, "mem": 128, "sel": {}, "terms": [], "tol": [dict(TOL_ALL)], "ports": []}],
+           "scs": [], "pvs": [], "pvcs": [], "pods": [_pod("w1", 1500, 1024, 1), _pod("w2", 1500, 1024, 2)]}
+    c = "default/w1"
+    P = lambda d=True: dict(BLANK, a="Pass", deliver=d)
+    launch = dict(BLANK, a="Launch", c=c, type="A", off=0)
+    out = []
+    for ev in range(0, 8):
+        for sv in range(0, 3):
+            for reg in (False, True):
+                steps = [P(), launch, dict(BLANK, a="Appear", c=c, labels=reg, zero=(ev + sv) % 2 == 1, eph=ev > 0, ephv=ev, stv=sv)]
+                if reg:
+                    steps.append(dict(BLANK, a="Register", c=c))
+                steps.append(P())
+                out.append({"name": "sys-taint-e%d-s%d-%s" % (ev, sv, "registered" if reg else "appeared"), "scenario": scn, "later": [], "steps": steps})
+    life = [("created", []), ("launched", [launch]),
+            ("appeared", [launch, dict(BLANK, a="Appear", c=c, eph=True, ephv=2, stv=2)]),
+            ("registered", [launch, dict(BLANK, a="Appear", c=c, labels=True, eph=True, ephv=1), dict(BLANK, a="Register", c=c)]),
+            ("initialized", [launch, dict(BLANK, a="Appear", c=c, labels=True), dict(BLANK, a="Register", c=c), dict(BLANK, a="Init", c=c)])]
+    for stage, pre in life:
+        for mid in (False, True):          # with / without a delivered pass between the lifecycle steps and the restart
+            for first in (True, False):    # the first pass of the new process: fully re-hydrated / nothing delivered yet
+                steps = [P()] + pre + ([P()] if mid else []) + [dict(BLANK, a="Restart"), P(first)] + ([] if first else [P()])
+                out.append({"name": "sys-restart-%s%s-%s" % (stage, "-mid" if mid else "", "hydrated" if first else "cold"), "scenario": scn,
+                            "later": [], "steps": steps})
+    return out
 
 
 def witnesses():
@@ -334,7 +387,7 @@ def pipeline(run, prop):
     cex = closed_models(run, prop)
     enum, sim, exhaustive = generate(run, prop, rng)
     expl = [explore(rng, "x-%d-%d" % (run.seed, i)) for i in range(SCOPE[(prop, run.tier)]["explore"])]
-    behs = [complete(b) for b in cex + witnesses() + enum + sim + expl]
+    behs = [complete(b) for b in cex + witnesses() + systematic() + enum + sim + expl]
     files, sums = run_driver(run, behs, "mp-" + prop.lower(), procs)
     bad = [s for s in sums if s.get("status") != "ok"]
     if bad:
@@ -358,7 +411,7 @@ def pipeline(run, prop):
     if xdrift:
         run.notes.append("MODEL-DRIFT: Cluster.NodePoolResourcesFor differed from the API truth right after a full informer delivery in %d "
                          "places (C11's business, not judged here), e.g. %s" % (len(xdrift), {k: xdrift[0].get(k) for k in ("file", "line")}))
-    tlc_names = {b["name"] for b in behs if not b["name"].startswith("x-")}
+    tlc_names = {b["name"] for b in behs if not b["name"].startswith(("x-", "sys-"))}
     run.viol = [v for v in run.viol if not str(v.get("guard", "")).startswith(("Drift_MP_", "Obs_C04_"))]
     obs = [v for v in viol if str(v.get("guard", "")).startswith("Obs_C04_RepackAddsNode")]
     run.extra_cov["observation_rerun_repacks_and_adds_a_node"] = len(obs)
@@ -372,7 +425,7 @@ def pipeline(run, prop):
         "behaviours_replayed": len(behs), "counterexample_behaviours": len(cex), "passes": sum(s.get("passes", 0) for s in sums),
         "passes_that_ran": sum(s.get("passesRan", 0) for s in sums), "nodeclaims_created": sum(s.get("created", 0) for s in sums),
         "launches": sum(s.get("launches", 0) for s in sums), "opens": sum(s.get("opens", 0) for s in sums),
-        "explorer_behaviours": len(expl), "tlc_driver_steps": steps, "tlc_driver_steps_skipped": skips})
+        "explorer_behaviours": len(expl), "systematic_behaviours": len(systematic()), "tlc_driver_steps": steps, "tlc_driver_steps_skipped": skips})
     if steps and skips > steps * 0.25:
         raise vlib.InfraError("the real code diverged from the model's prediction in %d of %d steps (model and code must be reconciled)" % (skips, steps))
     run.exhaustive = False
